@@ -738,7 +738,9 @@ impl<C: BgpConfig + Send> Session<C> {
             // Active state: handled by the (S::Connect | S::Active, ..)
             // arm below.
             (S::Connect, E::BgpHeaderErr | E::BgpOpenMsgErr) => { todo!() }
-            (S::Connect, E::NotifMsgVerErr) => { todo!() }
+            // (S::Connect, E::NotifMsgVerErr): RFC 4271 prescribes the same
+            // actions as in the Active state: handled by the
+            // (S::Connect | S::Active, E::NotifMsgVerErr) arm below.
             (S::Connect, 
                 //E::AutomaticStop |
                 E::HoldTimerExpires |
@@ -1057,7 +1059,7 @@ impl<C: BgpConfig + Send> Session<C> {
                 self.set_state(State::Idle);
             }
 
-            (S::Active, E::NotifMsgVerErr) => {
+            (S::Connect | S::Active, E::NotifMsgVerErr) => {
                 if self.delay_open_timer.is_running() {
                     // If the DelayOpenTimer is running, the local system:
                     //- stops the ConnectRetryTimer (if running) and sets the
